@@ -15,7 +15,7 @@ Fixpoint bytes_of (s : string) : list N :=
 Definition gbk0 (_ : list N) : Z := 0%Z.                  (* never consulted on ASCII files *)
 Definition fc_text (a b : list N) : bool := beq_bytes a b. (* closeness of float literals: same text (enough here) *)
 
-Definition check (src : string) : Res outcome := check_bytes fc_text gbk0 classify_tok (bytes_of src).
+Definition check (fx : fixes) (src : string) : Res outcome := check_bytes fx fc_text gbk0 classify_tok (bytes_of src).
 
 Definition reportedb (ty : N) (L : loc) (rs : list report) : bool :=
   existsb (fun r => (r_ty r =? ty) && loc_eqb (r_loc r) L) rs.
@@ -31,7 +31,7 @@ Definition agrees (o : outcome) : bool :=
   && Nat.eqb (List.length (o_model o)) (List.length (o_spec o)).
 
 (* the outcome of a file that parses without error *)
-Definition valid_outcome (src : string) (o : outcome) : Prop := check src = Ok o /\ o_valid o = true.
+Definition valid_outcome (fx : fixes) (src : string) (o : outcome) : Prop := check fx src = Ok o /\ o_valid o = true.
 
 (* an over-report contradicts "reported <-> demanded" (used by C20_full_refuted; no computation under Qed) *)
 From LH Require Import Proofs.PatternsLocal.
@@ -56,12 +56,37 @@ Proof.
   congruence.
 Qed.
 
-Lemma full_refuted_from : forall src o ty,
-  valid_outcome src o -> over_reported o ty = true ->
+Lemma full_refuted_from : forall fx src o ty,
+  valid_outcome fx src o -> over_reported o ty = true ->
   ~ (forall fclose gbk bs o,
-      check_bytes fclose gbk classify_tok bs = Ok o -> o_valid o = true ->
+      check_bytes fx fclose gbk classify_tok bs = Ok o -> o_valid o = true ->
       forall ty L, reported ty L (o_model o) <-> In (ty, L) (o_spec o)).
 Proof.
-  intros src o ty [Hc Hv] Ho H. unfold check in Hc.
+  intros fx src o ty [Hc Hv] Ho H. unfold check in Hc.
   exact (over_reported_not_iff o ty Ho (H _ _ _ o Hc Hv)).
+Qed.
+
+(* likewise a missing report *)
+Lemma under_reported_not_iff : forall o ty,
+  under_reported o ty = true ->
+  ~ (forall t L, reported t L (o_model o) <-> In (t, L) (o_spec o)).
+Proof.
+  intros o ty Hun Hall.
+  unfold under_reported in Hun. apply existsb_exists in Hun. destruct Hun as [[t L] [Hin Hr]].
+  apply andb_true_iff in Hr. destruct Hr as [_ Hneg]. apply negb_true_iff in Hneg. cbn [fst snd] in Hneg.
+  apply Hall in Hin. destruct Hin as [r [Hr [Ht HL]]].
+  assert (Hex : reportedb t L (o_model o) = true).
+  { unfold reportedb. apply existsb_exists. exists r. split; auto.
+    apply andb_true_iff. split; [apply N.eqb_eq; auto|apply loc_eqb_eq; auto]. }
+  congruence.
+Qed.
+
+Lemma full_refuted_from_under : forall fx src o ty,
+  valid_outcome fx src o -> under_reported o ty = true ->
+  ~ (forall fclose gbk bs o,
+      check_bytes fx fclose gbk classify_tok bs = Ok o -> o_valid o = true ->
+      forall ty L, reported ty L (o_model o) <-> In (ty, L) (o_spec o)).
+Proof.
+  intros fx src o ty [Hc Hv] Ho H. unfold check in Hc.
+  exact (under_reported_not_iff o ty Ho (H _ _ _ o Hc Hv)).
 Qed.
